@@ -6,6 +6,7 @@ import DS.Driver.JsonD
 import DS.Driver.DetailD
 import DS.Driver.VMD
 import DS.Driver.RefD
+import DS.Driver.PegD
 open DS.Driver
 
 def dispatch (line : String) : String :=
@@ -22,6 +23,7 @@ def dispatch (line : String) : String :=
     else if t == "vmexec" || t == "skelexec" then vmLine toks
     else if t == "verify" then verifyLine toks
     else if t == "refeval" then refLine toks
+    else if t == "pegtrace" then pegLine toks
     else "bad-op"
 
 partial def loop (hin : IO.FS.Stream) (hout : IO.FS.Stream) : IO Unit := do
